@@ -34,7 +34,8 @@ TNext == /\ t <= Len(Traces)
                /\ t' = t + 1 /\ l' = 1 /\ bad' = Ok /\ accA' = <<>> /\ accIn' = <<>> /\ accOut' = <<>>
                /\ o' = IF t + 1 <= Len(Traces) THEN InitOf(Traces[t + 1]) ELSE o
             ELSE LET e == tr.events[l]
-                     o2 == IF o.poisoned THEN o ELSE CcmStep(o, e)
+                     e2 == IF "free" \in DOMAIN e THEN [e EXCEPT !.good = (e.exc = "none")] ELSE e
+                     o2 == IF o.poisoned THEN o ELSE CcmStep(o, e2)
                      v == IF o.poisoned THEN "ok" ELSE StepVerdict(e, o2, tr)
                      okc == e.exc = "none"
                  IN /\ o' = o2 /\ l' = l + 1 /\ t' = t
